@@ -531,6 +531,11 @@ def task_mixed(ctx, n, depth):
 
 
 def tasks(tier):
+    from .. import depth
+    return _tasks(tier) + [("little-stack", depth.task, dict(prop=PROPERTY))]
+
+
+def _tasks(tier):
     if tier == "quick":
         return [("valid-a", task_valid, dict(n=1000, depth=3)),
                 ("mixed", task_mixed, dict(n=400, depth=2)),
@@ -556,6 +561,9 @@ def tasks(tier):
 
 
 def replay(ctx, case):
+    if isinstance(case, dict) and case.get("kind") == "little-stack":
+        from .. import depth
+        return depth.check(ctx, case)
     if case["kind"] == "mixed":
         check_mixed(ctx, case["value"])
     elif case["kind"] == "custom":
